@@ -74,6 +74,7 @@ SPEC = {
         "6": "model out of fuel",
         "7": "malformed case",
         "8": "the document could not be built (style construction panicked or worker died)",
+        "10": "history agrees but the document does not satisfy wt_tree, the typing hypotheses of C04_get_total (validator postconditions)",
         "9": "Get panicked and so does the model: outside the hypotheses of C04_get_total (ill-typed value) or C04_get_total broken",
     },
     "theorems_for_kind": {
